@@ -103,8 +103,37 @@ def classify(ops, lines):
 
 def run(ck):
     quick = ck.tier == "quick"
-    cdir, proofs_ok = vlib.proof_phase(ck, "Properties_C01.v")
+    cdir, proofs_ok = vlib.proof_phase(ck, "Properties_C01.v", translators=("tables", "lockcfg"))
+    # lock facts C01 relies on: buffer, staging buffer, index, capacity and the write callback are only
+    # touched under bidib_send_buffer_mutex (generated lock programs, verified checker)
+    okl, logl = vlib.coq_make(cdir, ["LockProofs.vo"])
+    diag, side = vlib.lock_diagnosis(cdir, kinds=("guard", "balance"), threadsafe_only=True)
+    rel = [d for d in diag if any(g in d["what"] for g in ("buffer", "pkt_max_cap", "write_bytes"))]
+    ck.oblige("lock fact: packet buffer / staging buffer / write callback only used under bidib_send_buffer_mutex", okl and not rel, "; ".join(d["what"] for d in rel[:3]))
+    if not okl or rel:
+        ck.broken.append({"kind": "lock-fact", "name": "guarded_by send_buffer", "detail": rel[:5] or logl[-800:]})
     exe = vlib.build_harness()
+    # concurrency probe on the real code: a second thread buffers and flushes while the first is inside a
+    # slow write callback; both messages must appear exactly once in decodable packets
+    rr = Rng(ck.seed).fork("C01race")
+    probe = ["start 1 - 0"]
+    pm = []
+    for i in range(4 if quick else 40):
+        a = gen_msg(rr, 20); b = gen_msg(rr, 20); pm.append((a, b))
+        probe += ["case r%d" % i, "cap 0", "flush", "race_flush %s %s" % (hexs(a), hexs(b)), "flush"]
+    rc, out, err = vlib.run_driver(exe, "\n".join(probe) + "\n", timeout=120)
+    pc = vlib.split_cases(out)
+    import flowgen
+    race_bad = 0
+    for i, (a, b) in enumerate(pm):
+        chunks = [unhex(l[2:]) for l in pc.get("r%d" % i, []) if l.startswith("w ")]
+        pk = flowgen.decode_wire(chunks)
+        got = sorted(hexs(m) for p in (pk or []) for m in p)
+        if pk is None or got != sorted([hexs(a), hexs(b)]):
+            race_bad += 1
+            ck.violation("concurrent-flush", {"property": "C01", "scenario": "thread 1: add A, flush (slow write callback); thread 2 meanwhile: add B, flush",
+                         "A": hexs(a), "B": hexs(b), "wire_chunks": [hexs(c) for c in chunks], "reason": "wire is not a sequence of valid packets carrying A and B exactly once"})
+    ck.oblige("concurrency probe: flush racing a slow write callback (%d runs)" % len(pm), race_bad == 0, "%d bad" % race_bad)
     md = vlib.build_model_driver(cdir)
     r = Rng(ck.seed).fork("C01")
     n = 4000 if quick else 150000
